@@ -193,7 +193,7 @@ func init() {
 						_ = chains
 						c := f.Ctx()
 						occ := 0
-						ast.Inspect(f.Body(), func(x ast.Node) bool {
+						core.InspectBody(f, func(x ast.Node) bool {
 							rs, ok := x.(*ast.RangeStmt)
 							if !ok {
 								return true
@@ -238,7 +238,7 @@ func init() {
 						c := f.Ctx()
 						occ := 0
 						var stack []ast.Node
-						ast.Inspect(f.Body(), func(x ast.Node) bool {
+						core.InspectBody(f, func(x ast.Node) bool {
 							if x == nil {
 								stack = stack[:len(stack)-1]
 								return true
@@ -301,7 +301,7 @@ func init() {
 				pkg := r.W.Pkg("executor")
 				for _, f := range r.W.AllFuncs(pkg) {
 					c := f.Ctx()
-					ast.Inspect(f.Body(), func(x ast.Node) bool {
+					core.InspectBody(f, func(x ast.Node) bool {
 						rs, ok := x.(*ast.RangeStmt)
 						if !ok {
 							return true
@@ -324,7 +324,7 @@ func init() {
 					}
 					c := f.Ctx()
 					ok := false
-					ast.Inspect(f.Body(), func(x ast.Node) bool {
+					core.InspectBody(f, func(x ast.Node) bool {
 						if rs, isR := x.(*ast.RangeStmt); isR && core.CallAtom([]string{"executor.sortedPluginNames"})(c, rs.X) {
 							ok = true
 						}
@@ -341,7 +341,7 @@ func init() {
 				if f := r.Fn("executor.sortedPluginNames"); f != nil {
 					c := f.Ctx()
 					var verdicts []string
-					ast.Inspect(f.Body(), func(x ast.Node) bool {
+					core.InspectBody(f, func(x ast.Node) bool {
 						if rs, ok := x.(*ast.RangeStmt); ok {
 							okv, why := mapRangeVerdict(c, f.Body(), rs)
 							verdicts = append(verdicts, fmt.Sprint(okv, ":", why))
@@ -359,7 +359,7 @@ func init() {
 				if f := r.Fn("util.DelDupKey"); f != nil {
 					c := f.Ctx()
 					ranges, mapRange := 0, false
-					ast.Inspect(f.Body(), func(x ast.Node) bool {
+					core.InspectBody(f, func(x ast.Node) bool {
 						if rs, ok := x.(*ast.RangeStmt); ok {
 							ranges++
 							if _, isMap := c.Info.TypeOf(rs.X).Underlying().(*types.Map); isMap {
